@@ -132,7 +132,7 @@ SPAN_CASES = [{"reporting": r, "start": a, "end": b} for r in [False, True] for 
 @harness("C10.n_days_total", prop="C10", cases=SPAN_CASES, permissive=True)
 def n_days_total(reporting, start, end):
     """_compute_n_days_total: the span the length criterion judges runs from the first to the last COMPLETE row (usage, temperature and both
-    coverage counts present) -- whole elapsed days between the two instants plus one -- extended by the whole days between a requested start /
+    coverage counts present) -- whole calendar days between the two on the local wall clock, plus one -- extended by the whole days between a requested start /
     end and those two rows; rows that are not complete do not stretch it."""
     data = row_frame(DATA_COLS, label="sufficiency")
     complete = And(cell_kind(data, "observed") != NAN, cell_kind(data, "temperature") != NAN, cell_kind(data, "temperature_not_null") != NAN,
@@ -151,7 +151,9 @@ def n_days_total(reporting, start, end):
     last = index_max_seconds(kept)
     some = Not(index_is_empty(kept))
     t = label_seconds(data)
-    expect = floor_days(last - first) + 1
+    # the span itself is counted in CALENDAR days on the data's own wall clock (a span that starts in standard and ends in daylight-saving time is an hour
+    # short in elapsed time); the gaps to a requested start / end are whole elapsed days
+    expect = floor_days(wall_clock_seconds(last) - wall_clock_seconds(first)) + 1
     if start:
         expect = expect + floor_days(first - stamp_seconds(rs))
     if end:
@@ -159,7 +161,8 @@ def n_days_total(reporting, start, end):
     check("C10.n_days_total.value", implies(some, c.n_days_total == expect))
     # the tie to the rows (assumed contract of index.min / index.max, instantiated on the arbitrary row): a complete row lies inside the span,
     # so the span is at least the whole days from the first complete row to it, plus one
-    check("C10.n_days_total.spans_complete_rows", implies(And(complete, Not(start), Not(end)), c.n_days_total >= floor_days(t - first) + 1))
+    # (on the wall clock a complete row is not more than a day -- the largest UTC-offset change -- short of the elapsed count)
+    check("C10.n_days_total.spans_complete_rows", implies(And(complete, Not(start), Not(end)), c.n_days_total >= floor_days(t - first) - 1))
     check("C10.n_days_total.frame", And(Not(mutated(c.disqualification)), Not(mutated(c.warnings)), Not(data.mutated)))
     cover("C10.cover.n_days_total.incomplete_row_outside", And(Not(complete), t > last))
     cover("C10.cover.n_days_total.year", And(some, last - first == 364 * 86400))
